@@ -58,7 +58,8 @@ def obligations(tier):
               ("cc_ordered_times", "cc_ordered_times", FC[8:12], "8 classes (incl. strict stop_time > start_time), presence flags, unbounded int instants"),
               ("cc_observed_data", "cc_observed_data", FC[7:8], "objects/object_refs presence, unbounded int instants and count"),
               ("cc_malware_family", "cc_malware_family", FC[8:9], "name presence x is_family"),
-              ("cc_email_message", "cc_email_message", FC[12:13], "is_multipart x body x body_multipart, both versions"),
+              ("cc_email_message", "cc_email_message", FC[12:13], "is_multipart x body (absent, non-empty, empty) x body_multipart, both versions"),
+              ("cc_socket_options", "cc_socket_options", ["stix2.v21.observables.SocketExt._check_object_constraints"], "7 option names x 9 values (ints, booleans, float, text, null, list)"),
               ("cc_presence_table", "cc_presence", FC[:3], "14 classes/embedded types with presence-only constraints x every presence vector (<= 5 flags, falsy values used)"),
               ("cc_marking_definition_21", "cc_marking_definition", FC[13:], "definition_type / definition / extensions presence"),
               ("cc_helper_methods", "cc_helpers", FC[:3], "presence vector of 3 properties holding falsy values, at_least_one flag")]
